@@ -304,12 +304,43 @@ func run(r *vt.Run, t vt.TB, s spec) {
 		for !stoppedEarly && rows.Next() {
 			dest := make([]interface{}, len(cols))
 			ptrs := make([]interface{}, len(cols))
+			// where the native row has a BLOB or a NULL the value is scanned
+			// into a *[]byte: database/sql's way to tell the two apart is a
+			// nil slice for NULL, so an empty BLOB must not come out nil
+			var blobs []*[]byte
+			var blobAt []int
 			for i := range dest {
 				ptrs[i] = &dest[i]
+				if consumed < len(want) && i < len(want[consumed]) && len(want[consumed]) == len(cols) {
+					_, isBlob := want[consumed][i].([]byte)
+					if isBlob || want[consumed][i] == nil {
+						b := new([]byte)
+						ptrs[i] = b
+						blobs, blobAt = append(blobs, b), append(blobAt, i)
+					}
+				}
 			}
 			if err := rows.Scan(ptrs...); err != nil {
 				surfaced = err
 				break
+			}
+			for k, b := range blobs {
+				i := blobAt[k]
+				if *b != nil {
+					dest[i] = *b
+				}
+				if wb, isBlob := want[consumed][i].([]byte); isBlob && *b == nil {
+					rows.Close()
+					r.Violation(t, s, "blob-scans-as-null", "%s: row %d column %s is a BLOB of %d bytes natively; scanned into a *[]byte through database/sql it is nil, which is how NULL is reported", query, consumed, cols[i], len(wb))
+					return
+				} else if isBlob && len(wb) == 0 {
+					r.Count("empty-blob-scanned-into-byte-slice", 1)
+				}
+				if want[consumed][i] == nil && *b != nil {
+					rows.Close()
+					r.Violation(t, s, "null-scans-as-blob", "%s: row %d column %s is NULL natively; scanned into a *[]byte through database/sql it is %q", query, consumed, cols[i], *b)
+					return
+				}
 			}
 			got = append(got, dest)
 			consumed++
@@ -378,6 +409,21 @@ func run(r *vt.Run, t vt.TB, s spec) {
 		return
 	}
 	// ---- clean up: producer gone, lock released
+	if !cancelled && qerr == nil {
+		// rows.Close was called by us and has returned: the read is over now,
+		// not some time later (the connection is back in the pool and the
+		// next query may get it)
+		st, err := probe.Probe(path)
+		if err != nil {
+			r.Harness(t, "probe: %v", err)
+		}
+		// (the producer goroutine itself may take a moment more to exit)
+		if st.Shared.Type != "none" && st.Shared.Pid == os.Getpid() {
+			r.Violation(t, s, "close-returns-early", "%s (plan %s after %d rows): rows.Close has returned, yet the read is still going on: this process holds %s", query, s.Plan, consumed, st)
+			return
+		}
+		r.Count("close-checked-at-once", 1)
+	}
 	deadline := time.Now().Add(5 * time.Second)
 	for producerGoroutines() > before {
 		if time.Now().After(deadline) {
